@@ -102,7 +102,11 @@ def coarse(site):
     if "operand" in site:
         e = site["operand"]
         if e[0] == "call" and e[2]:
-            return "%s(%s)" % (_leaf(e), _leaf(e[2][0]))
+            inner = _leaf(e[2][0])
+            # what the receiver was sliced / borrowed from is not part of the shape
+            if inner in ("index", "deref", "as_str", "as_ref", "borrow", "clone", "v") or not inner.startswith("."):
+                inner = "v" if inner in ("index", "deref", "as_str", "as_ref", "borrow", "clone", "v") else inner
+            return "%s(%s)" % (_leaf(e), inner)
         return _leaf(e)
     return site.get("detail", "")
 
